@@ -1,15 +1,300 @@
 /-
-C26 — Content-Length is accepted only when unambiguous. (first version; theorems follow)
+C26 — Content-Length is accepted only when unambiguous.
+
+  "A message's framing length is taken from Content-Length only when every Content-Length value is a valid
+   non-negative decimal and all values are equal. Duplicates of an equal value are accepted only with relaxed
+   parsing. Otherwise the message is treated as having bad framing, and a value that differs from the one-token
+   decimal in the field is never used."
+
+Model: `SquidModel.Header.parseHeader` (= `HttpHeader::parse` with `Http::ContentLengthInterpreter`, `strListGetItem`,
+`httpHeaderParseOffset`/`strtoll`). Specification: `SquidModel.Header.ClSpec` (`fieldValues`, `decimalValue`).
+`rawEntries cfg block` are the fields of the block as `HttpHeaderEntry::parse` produces them (C25 ties them to the
+text of the block); `clValues raw` are the values of its Content-Length fields in order.
+
+The full statement is FALSE of the real code in two regions (both only with relaxed_header_parser), see the
+`_counterexample` theorems; they are excluded by explicit hypotheses:
+  * `BlankOk v` fails: a comma list with a member that consists of VT/FF (and separators) only — `checkList` stops there and never
+    looks at the rest of the list (finding C26-list-truncated); the specification counts such a member as one without a value;
+  * `fieldValues v = []`: a comma list without any member — treated as if the field were absent (finding C26-empty-list).
+All theorems are for every block and every configuration, without size bounds.
 -/
-import SquidModel.Header.Parse
+import SquidModel.Header.ScanLemmas
 
 namespace SquidModel.C26
-open SquidModel.Header
+open SquidModel SquidModel.Header
 
-/-- `Content-Length: 5,<VT>,7` with the relaxed parser: the framing length 5 is used although the field also carries 7. -/
+/-- FULL STATEMENT (false, see `list_truncated_counterexample`): the same without the `BlankOk` hypothesis.
+
+Soundness. Whenever `parse` succeeds and the header then carries a Content-Length `n` (`getInt64(CONTENT_LENGTH)`), the message
+has no Transfer-Encoding field, Content-Length is not prohibited for it, it is not flagged `conflictingContentLength`,
+with the strict parser it has exactly one Content-Length field and that field is not a list, and — outside the VT/FF-element
+region — `n ≥ 0`, there is at least one Content-Length field and *every* value of *every* Content-Length field is a decimal
+that fits int64 and denotes `n`. -/
+theorem framing_length_sound_partial (cfg : Cfg) (block : Bytes) (r : HdrResult) (n : Int)
+    (h : parseHeader cfg block = .ok r) (hn : contentLength r.entries = some n) :
+    ∃ raw, rawEntries cfg block = some raw ∧ cfg.prohibited = false ∧ hasTe raw = false ∧
+      r.conflictingContentLength = false ∧
+      (cfg.relaxed = false → ∃ v, clValues raw = [v] ∧ v.contains 44 = false) ∧
+      ((∀ v ∈ clValues raw, BlankOk v) →
+        0 ≤ n ∧ clValues raw ≠ [] ∧
+        ∀ v ∈ clValues raw, ∀ x ∈ fieldValues cfg.relaxed v, decimalValue x = some n.toNat) := by
+  rw [parseHeader_eq] at h
+  cases hraw : rawEntries cfg block with
+  | none => simp [hraw] at h
+  | some raw =>
+    simp only [hraw] at h
+    cases hfold : clFold cfg.relaxed [] {} raw with
+    | none => simp [hfold] at h
+    | some p =>
+      obtain ⟨es, cl⟩ := p
+      simp only [hfold] at h
+      obtain ⟨hrun, hshape, hstrict, hgood⟩ := run_facts cfg raw es cl hfold
+      obtain ⟨_, _, hnon, _, _⟩ := clFold_spec cfg.relaxed raw [] {} [] es cl (shape_init cfg.relaxed) hfold
+      have hte_eq : es.any (fun e => e.id == idTransferEncoding) = hasTe raw := by
+        unfold hasTe
+        rw [any_te_filter es, any_te_filter raw]
+        simp only [List.filter_nil, List.nil_append] at hnon
+        rw [hnon]
+      -- Content-Length survives only in the plain case
+      by_cases hc : cfg.prohibited = true ∨ es.any (fun e => e.id == idTransferEncoding) = true
+      · have := (finish_ignored cfg es cl r hc h).1
+        rw [contentLength_none_of_noCl _ this] at hn
+        exact absurd hn (by simp)
+      · have hp : cfg.prohibited = false := by
+          cases hpp : cfg.prohibited with
+          | false => rfl
+          | true => exact absurd (Or.inl hpp) hc
+        have hte : hasTe raw = false := by
+          rw [← hte_eq]
+          cases ht : es.any (fun e => e.id == idTransferEncoding) with
+          | false => rfl
+          | true => exact absurd (Or.inr ht) hc
+        obtain ⟨r', hr', hcl, hconf, _, _, _, _⟩ := finish_plain cfg raw es cl hfold hp hte
+        rw [hr'] at h
+        have hrr : r' = r := by simpa using h
+        subst hrr
+        rw [hn] at hcl
+        -- the decision is `some n`: not bad, good, value n
+        have hdec : cl.sawBad = false ∧ cl.sawGood = true ∧ cl.value = n := by
+          unfold clDecision at hcl
+          cases hb : cl.sawBad with
+          | true => simp [hb] at hcl
+          | false =>
+            cases hg : cl.sawGood with
+            | false => simp [hb, hg] at hcl
+            | true => simp [hb, hg] at hcl; exact ⟨rfl, rfl, hcl.symm⟩
+        refine ⟨raw, rfl, hp, hte, by rw [hconf]; exact hdec.1, ?_, ?_⟩
+        · intro hr
+          have := hshape.2 hdec.1 (hstrict hr).2
+          obtain ⟨v, hv, hc, _⟩ := this.2 hdec.2.1
+          exact ⟨v, hv, hc⟩
+        · intro hb
+          have hg := (hgood hb hdec.1).1 hdec.2.1
+          rw [hdec.2.2] at hg
+          refine ⟨hg.1, ?_, ?_⟩
+          · intro hnil
+            rw [hnil] at hrun
+            simp only [runFields, List.foldl_nil] at hrun
+            rw [hrun] at hdec; simp at hdec
+          · intro v hv x hx
+            exact hg.2 x (List.mem_flatMap.mpr ⟨v, hv, hx⟩)
+
+/-- FULL STATEMENT (false, see the two counterexamples): the same without `hblank` and `hvalues`.
+
+"Otherwise the message is treated as having bad framing". For a syntactically acceptable block with at least one Content-Length
+field, no Transfer-Encoding and no prohibition: if it is NOT the case that all values of all Content-Length fields denote one
+number (and, strict parser, that there is exactly one such field), then `parse` fails (strict) or succeeds with
+`conflictingContentLength()` set and no Content-Length left in the header (relaxed). -/
+theorem otherwise_bad_partial (cfg : Cfg) (block : Bytes) (raw : List Entry)
+    (hraw : rawEntries cfg block = some raw) (hp : cfg.prohibited = false) (hte : hasTe raw = false)
+    (hblank : ∀ v ∈ clValues raw, BlankOk v) (hvalues : ∀ v ∈ clValues raw, fieldValues cfg.relaxed v ≠ [])
+    (hne : clValues raw ≠ [])
+    (hamb : ¬ ∃ n, AllDenote cfg.relaxed (clValues raw) n ∧ (cfg.relaxed = false → (clValues raw).length = 1)) :
+    parseHeader cfg block = .reject ∨
+    (cfg.relaxed = true ∧ ∃ r, parseHeader cfg block = .ok r ∧ r.conflictingContentLength = true ∧
+      contentLength r.entries = none ∧ r.entries.filter isCl = []) := by
+  rw [parseHeader_eq]
+  simp only [hraw]
+  cases hfold : clFold cfg.relaxed [] {} raw with
+  | none => exact Or.inl rfl
+  | some p =>
+    obtain ⟨es, cl⟩ := p
+    simp only []
+    obtain ⟨hrun, hshape, hstrict, hgood⟩ := run_facts cfg raw es cl hfold
+    obtain ⟨r, hr, hcl, hconf, _, _, hlen, hents⟩ := finish_plain cfg raw es cl hfold hp hte
+    by_cases hbad : cl.sawBad = true
+    · right
+      have hrel : cfg.relaxed = true := by
+        cases hrx : cfg.relaxed with
+        | true => rfl
+        | false => have := (hstrict hrx).1; rw [hbad] at this; exact absurd this (by simp)
+      refine ⟨hrel, r, hr, by rw [hconf]; exact hbad, by rw [hcl]; simp [clDecision, hbad], ?_⟩
+      cases hf : r.entries.filter isCl with
+      | nil => rfl
+      | cons e t =>
+        obtain ⟨k, hk, _⟩ := hents e (by rw [hf]; simp)
+        simp [clDecision, hbad] at hk
+    · exfalso
+      have hbad' : cl.sawBad = false := by simpa using hbad
+      have hg := hgood hblank hbad'
+      apply hamb
+      by_cases hsg : cl.sawGood = true
+      · refine ⟨cl.value.toNat, ?_, ?_⟩
+        · intro v hv
+          exact ⟨hvalues v hv, fun x hx => (hg.1 hsg).2 x (List.mem_flatMap.mpr ⟨v, hv, hx⟩)⟩
+        · intro hr
+          obtain ⟨v, hv, _, _⟩ := (hshape.2 hbad' (hstrict hr).2).2 hsg
+          rw [hv]; rfl
+      · have hsg' : cl.sawGood = false := by simpa using hsg
+        have hnil := hg.2 hsg'
+        cases hcv : clValues raw with
+        | nil => exact absurd hcv hne
+        | cons v vs =>
+          have := hvalues v (by rw [hcv]; simp)
+          rw [hcv] at hnil
+          simp only [List.flatMap_cons, List.append_eq_nil_iff] at hnil
+          exact absurd hnil.1 this
+
+/-- "A value that differs from the one-token decimal in the field is never used": after a successful `parse` the header holds at
+most one Content-Length entry, and the text of that entry is a decimal (surrounding whitespace aside) that denotes exactly the
+number `getInt64(CONTENT_LENGTH)` returns — both when the original field was kept and when the value was re-written by the sanitiser. -/
+theorem never_uses_other_value (cfg : Cfg) (block : Bytes) (r : HdrResult) (h : parseHeader cfg block = .ok r) :
+    (r.entries.filter isCl).length ≤ 1 ∧
+    ∀ e ∈ r.entries, e.id = idContentLength →
+      ∃ n : Nat, contentLength r.entries = some (n : Int) ∧ decimalValue (strip e.value) = some n := by
+  rw [parseHeader_eq] at h
+  cases hraw : rawEntries cfg block with
+  | none => simp [hraw] at h
+  | some raw =>
+    simp only [hraw] at h
+    cases hfold : clFold cfg.relaxed [] {} raw with
+    | none => simp [hfold] at h
+    | some p =>
+      obtain ⟨es, cl⟩ := p
+      simp only [hfold] at h
+      obtain ⟨_, _, hnon, _, _⟩ := clFold_spec cfg.relaxed raw [] {} [] es cl (shape_init cfg.relaxed) hfold
+      by_cases hc : cfg.prohibited = true ∨ es.any (fun e => e.id == idTransferEncoding) = true
+      · have hnil := (finish_ignored cfg es cl r hc h).1
+        refine ⟨by rw [hnil]; simp, ?_⟩
+        intro e he hid
+        have : e ∈ r.entries.filter isCl := List.mem_filter.mpr ⟨he, by simp [isCl, hid]⟩
+        rw [hnil] at this; simp at this
+      · have hp : cfg.prohibited = false := by
+          cases hpp : cfg.prohibited with
+          | false => rfl
+          | true => exact absurd (Or.inl hpp) hc
+        have hte : hasTe raw = false := by
+          unfold hasTe
+          rw [any_te_filter raw]
+          simp only [List.filter_nil, List.nil_append] at hnon
+          rw [← hnon, ← any_te_filter es]
+          cases ht : es.any (fun e => e.id == idTransferEncoding) with
+          | false => rfl
+          | true => exact absurd (Or.inr ht) hc
+        obtain ⟨r', hr', hcl, _, _, _, hlen, hents⟩ := finish_plain cfg raw es cl hfold hp hte
+        rw [hr'] at h
+        have hrr : r' = r := by simpa using h
+        subst hrr
+        refine ⟨hlen, ?_⟩
+        intro e he hid
+        obtain ⟨k, hk, hd⟩ := hents e (List.mem_filter.mpr ⟨he, by simp [isCl, hid]⟩)
+        exact ⟨k, by rw [hcl]; exact hk, hd⟩
+
+/-- Transfer-Encoding wins and prohibited Content-Length is ignored: in both cases no Content-Length is left for the callers. -/
+theorem content_length_ignored (cfg : Cfg) (block : Bytes) (r : HdrResult) (raw : List Entry)
+    (h : parseHeader cfg block = .ok r) (hraw : rawEntries cfg block = some raw)
+    (hc : cfg.prohibited = true ∨ hasTe raw = true) :
+    contentLength r.entries = none ∧ r.conflictingContentLength = false := by
+  rw [parseHeader_eq] at h
+  simp only [hraw] at h
+  cases hfold : clFold cfg.relaxed [] {} raw with
+  | none => simp [hfold] at h
+  | some p =>
+    obtain ⟨es, cl⟩ := p
+    simp only [hfold] at h
+    obtain ⟨_, _, hnon, _, _⟩ := clFold_spec cfg.relaxed raw [] {} [] es cl (shape_init cfg.relaxed) hfold
+    have hte_eq : es.any (fun e => e.id == idTransferEncoding) = hasTe raw := by
+      unfold hasTe
+      rw [any_te_filter es, any_te_filter raw]
+      simp only [List.filter_nil, List.nil_append] at hnon
+      rw [hnon]
+    have := finish_ignored cfg es cl r (by rw [hte_eq]; exact hc) h
+    exact ⟨contentLength_none_of_noCl _ this.1, this.2⟩
+
+/-- Completeness. A syntactically acceptable block without Transfer-Encoding and without prohibition, whose Content-Length fields
+(at least one; exactly one with the strict parser) all carry at least one value and only values denoting `n`, is accepted, is not
+flagged, and `getInt64(CONTENT_LENGTH)` is `n`. -/
+theorem unambiguous_accepted (cfg : Cfg) (block : Bytes) (raw : List Entry) (n : Nat)
+    (hraw : rawEntries cfg block = some raw) (hp : cfg.prohibited = false) (hte : hasTe raw = false)
+    (hne : clValues raw ≠ [])
+    (hall : AllDenote cfg.relaxed (clValues raw) n) (hstrict : cfg.relaxed = false → (clValues raw).length = 1) :
+    ∃ r, parseHeader cfg block = .ok r ∧ contentLength r.entries = some (n : Int) ∧ r.conflictingContentLength = false := by
+  have hblank : ∀ v ∈ clValues raw, BlankOk v := fun v hv =>
+    blankOk_of_decimal cfg.relaxed v (fun x hx => ⟨n, (hall v hv).2 x hx⟩)
+  have hvals := rawEntries_values cfg block raw hraw
+  have hcl : ∀ v ∈ clValues raw, BlankOk v ∧ (10 : UInt8) ∉ v ∧ strip v = v ∧ fieldValues cfg.relaxed v ≠ [] ∧
+      ∀ x ∈ fieldValues cfg.relaxed v, decimalValue x = some ((n : Int)).toNat := by
+    intro v hv
+    have hv' := hv
+    simp only [clValues, List.mem_map, List.mem_filter] at hv'
+    obtain ⟨e, ⟨he, hid⟩, rfl⟩ := hv'
+    have := hvals e he
+    have hfr : isFraming e.id = true := by simp [isFraming, hid]
+    exact ⟨hblank _ hv, this.2 hfr, this.1, (hall _ hv).1, by simpa using (hall _ hv).2⟩
+  obtain ⟨es, cl, hfold, hbad, hgood, hval⟩ := clFold_complete cfg.relaxed (n : Int) (Int.natCast_nonneg n) raw [] {} hcl rfl
+    (by intro h; simp at h) (by intro hr; right; exact ⟨rfl, by rw [hstrict hr]; exact Nat.le_refl 1⟩)
+  have hg : cl.sawGood = true := by
+    rw [hgood]
+    cases hcv : clValues raw with
+    | nil => exact absurd hcv hne
+    | cons a b => rfl
+  obtain ⟨r, hr, hclr, hconf, _⟩ := finish_plain cfg raw es cl hfold hp hte
+  refine ⟨r, ?_, ?_, by rw [hconf]; exact hbad⟩
+  · rw [parseHeader_eq]; simp only [hraw, hfold]; exact hr
+  · rw [hclr]; simp [clDecision, hbad, hg, hval hg]
+
+/-! ### the two regions where the real code violates the property (relaxed parser only) -/
+
+/-- `Content-Length: 5,<VT>,7` : the framing length 5 is taken although the field also carries a member without a value and the value 7. -/
 theorem list_truncated_counterexample :
     parseHeader ⟨true, .request, false⟩
-      [67,111,110,116,101,110,116,45,76,101,110,103,116,104,58,32,53,44,11,44,55,13,10]
+      [67,111,110,116,101,110,116,45,76,101,110,103,116,104,58,32, 53,44,11,44,55, 13,10]
+      = .ok ⟨[⟨idContentLength, nameOf idContentLength, [53]⟩], false, false⟩ ∧
+    fieldValues true [53,44,11,44,55] = [[53], [], [55]] ∧ ¬ BlankOk [53,44,11,44,55] := by
+  refine ⟨by decide +kernel, by decide +kernel, by decide +kernel⟩
+
+/-- `Content-Length: ,` : no value at all, yet neither rejected nor flagged — the message is handled as if it had no Content-Length. -/
+theorem empty_list_counterexample :
+    parseHeader ⟨true, .request, false⟩ [67,111,110,116,101,110,116,45,76,101,110,103,116,104,58,32, 44, 13,10]
+      = .ok ⟨[], false, false⟩ ∧
+    fieldValues true [44] = [] := by
+  refine ⟨by decide +kernel, by decide +kernel⟩
+
+/-- `Content-Length: ,<VT>,7`: an invalid member and the value 7, yet neither rejected nor flagged: the field is dropped as if absent -/
+theorem list_truncated_counterexample_absent :
+    parseHeader ⟨true, .request, false⟩
+      [67,111,110,116,101,110,116,45,76,101,110,103,116,104,58,32, 44,11,44,55, 13,10] = .ok ⟨[], false, false⟩ ∧
+    fieldValues true [44,11,44,55] = [[], [55]] := by
+  refine ⟨by decide +kernel, by decide +kernel⟩
+
+/-! ### non-vacuity -/
+
+/-- the hypotheses of `otherwise_bad_partial` are satisfiable and its conclusion is the relaxed branch: `Content-Length: 5, 7` -/
+example : parseHeader ⟨true, .request, false⟩ [67,111,110,116,101,110,116,45,76,101,110,103,116,104,58,32, 53,44,32,55, 13,10]
+    = .ok ⟨[], true, false⟩ := by decide +kernel
+/-- … and the strict branch: the same block is rejected -/
+example : parseHeader ⟨false, .request, false⟩ [67,111,110,116,101,110,116,45,76,101,110,103,116,104,58,32, 53,44,32,55, 13,10]
+    = .reject := by decide +kernel
+/-- duplicates of an equal value are accepted only with relaxed parsing, and are re-written to one value -/
+example : parseHeader ⟨true, .reply, false⟩
+    [67,111,110,116,101,110,116,45,76,101,110,103,116,104,58,32, 48,53,44,32,53, 13,10]
     = .ok ⟨[⟨idContentLength, nameOf idContentLength, [53]⟩], false, false⟩ := by decide +kernel
+example : BlankOk [48,53,44,32,53] := by decide +kernel
+example : fieldValues true [48,53,44,32,53] = [[48,53],[53]] := by decide +kernel
+example : decimalValue [48,53] = some 5 := by decide +kernel
+/-- the specification rejects what it should -/
+example : decimalValue [43,53] = none := by decide +kernel
+example : decimalValue [57,50,50,51,51,55,50,48,51,54,56,53,52,55,55,53,56,48,56] = none := by decide +kernel
+example : decimalValue [57,50,50,51,51,55,50,48,51,54,56,53,52,55,55,53,56,48,55] = some 9223372036854775807 := by decide +kernel
 
 end SquidModel.C26
